@@ -596,11 +596,12 @@ class Grid(object):
             # No data value
             fh.write("{0:<14} {1}\n".format("NODATA_VALUE", self.nodata))
 
-            # Name
-            fh.write("{0:<14} {1}\n".format("NAME", self.name))
+            # Name (one header line: line breaks become blanks)
+            gridname = re.sub("[\r\n]+", " ", self.name)
+            fh.write("{0:<14} {1}\n".format("NAME", gridname))
 
-            # Comment
-            comment = self.comment
+            # Comment (one header line too)
+            comment = re.sub("[\r\n]+", " ", self.comment)
             if comment == "":
                 comment = "No comment"
             fh.write("{0:<14} {1}\n".format("COMMENT", comment))
